@@ -575,7 +575,12 @@ func runC03(r *Run) {
 			break
 		}
 	}
-	r.Finish("(1) queries: IDs, names incl. mixed case / root / long, types and classes, flags, with/without OPT of sizes {0..65535}, malformed stream (QR, 0 or 2 questions, answer/authority records, 2 additionals) x scripted plugin outcome (answer with 0..30 records of up to 250 bytes, rcode 0..15 and extended with OPT, none, error, error after a response) x arrival via UDP, TCP, DoH GET, DoH POST; (2) random chains of 1..4 of {cache, redirect, hosts, black_hole, arbitrary, reject, ttl, ecs, prefer_ipv4, fallback, forward_edns0opt} in front of the scripted upstream, each chain queried 1..3 times; (3) two client queries with different IDs for one cached question (fresh entry / expired entry kept by lazy cache), the first held behind the cache until the second was answered; (4) 2..15 pipelined queries on one non-TCP connection through server.ServeTCP + EntryHandler, all answered at the same moment; (5) server.ServeUDP on a loopback socket (bound to 127.0.0.1 or to 0.0.0.0) + EntryHandler + the scripted last plugin of (1): 4..12 bursts from 2..8 client sockets, each socket writing 1..3 datagrams (queries of (1) with distinct IDs, malformed ones, datagrams that are no DNS message) before anything is read, every socket must receive exactly the replies to its own well-formed queries; non-trivial = valid query")
+	// ---------- (6) redirect (rewrites the context's query) x dual-stack selector (replaces the context) in front of a last
+	// plugin whose outcome depends on the query type; see c03sel.go
+	for i, ns := 0, r.N(400, 10000); i < ns; i++ {
+		selChain03Run(r, i)
+	}
+	r.Finish("(1) queries: IDs, names incl. mixed case / root / long, types and classes, flags, with/without OPT of sizes {0..65535}, malformed stream (QR, 0 or 2 questions, answer/authority records, 2 additionals) x scripted plugin outcome (answer with 0..30 records of up to 250 bytes, rcode 0..15 and extended with OPT, none, error, error after a response) x arrival via UDP, TCP, DoH GET, DoH POST; (2) random chains of 1..4 of {cache, redirect, hosts, black_hole, arbitrary, reject, ttl, ecs, prefer_ipv4, fallback, forward_edns0opt} in front of the scripted upstream, each chain queried 1..3 times; (3) two client queries with different IDs for one cached question (fresh entry / expired entry kept by lazy cache), the first held behind the cache until the second was answered; (4) 2..15 pipelined queries on one non-TCP connection through server.ServeTCP + EntryHandler, all answered at the same moment; (5) server.ServeUDP on a loopback socket (bound to 127.0.0.1 or to 0.0.0.0) + EntryHandler + the scripted last plugin of (1): 4..12 bursts from 2..8 client sockets, each socket writing 1..3 datagrams (queries of (1) with distinct IDs, malformed ones, datagrams that are no DNS message) before anything is read, every socket must receive exactly the replies to its own well-formed queries; (6) chains of 0..2 redirect (full / domain rules, nested), prefer_ipv4 or prefer_ipv6 (sometimes both), 0..2 of {ttl, ecs} in random order, half of them with a redirect in front, before a last plugin (sometimes behind fallback) scripted per query type (A / AAAA / other: address records, other records, no record, no response, error, error after a response), 1..3 queries per chain (names matching the rules in mixed case or not, A / AAAA / TXT / random type, well-formed and malformed, UDP / TCP / DoH): own ID and question, rcode within the outcomes the statement allows (own outcome, or the selector's empty answer when the preferred type had an address record); a third of the chains are a sub-sequence invoked as a plugin ($sub, which returns) or by jump, followed in the caller by a rule that answers locally (reject n / hosts / black_hole / arbitrary, sometimes only when there is no response yet); chains of redirect / selector / ttl only (alone, or as $sub / jump sub followed by reject n) are replayed on Model.C03Sel; non-trivial = valid query")
 }
 
 // overlap03: EntryHandler -> [cache, park] with an injected cache entry; query A (id a) is parked behind the cache with
@@ -1047,12 +1052,16 @@ func runC15(r *Run) {
 	for i, nl := 0, r.N(400, 12000); i < nl; i++ {
 		cacheLife15(r, i)
 	}
+	// (5) option-forwarding plugins inside plugins that run sub-queries on copies of the context (c15fork.go)
+	for i, nk := 0, r.N(240, 6000); i < nk; i++ {
+		forkOpts15(r, i)
+	}
 	keys := []string{}
 	for k := range r.meta.Dist {
 		keys = append(keys, k)
 	}
 	sort.Strings(keys)
-	r.Finish("client queries without / with one OPT (UDP size {0..65535}, DO, options from {client-subnet, cookie, padding, 65001}) x upstream replies without / with OPT (DO set, any of those options, extended rcode) through the handler alone and through random chains of 1..4 of {cache, ttl, ecs_handler(forward/preset), forward_edns0opt(codes)}, each chain queried 1..3 times (cache hits included); the scripted upstream records the query it is sent; (3) forked sub-queries: a copy of the query context whose OPT is then edited, and fallback with an EDNS0-forwarding plugin in the primary branch only in front of a failing upstream (the secondary upstream records its query); (4) 2..5 successive exchanges for one question (UDP/TCP/DoH) through chains of 1..4 of {forward_edns0opt(codes), ecs_handler, ttl} around one or two caches (lazy or not), every option with a payload of its own: reply and upstream query may only carry options of this very exchange that a plugin forwards explicitly, the cache entries (read back after each exchange, and through a dump) never contain an OPT; single-cache chains without ecs_handler are replayed on the model (Model.C15.transact); non-trivial = client or upstream OPT present")
+	r.Finish("client queries without / with one OPT (UDP size {0..65535}, DO, options from {client-subnet, cookie, padding, 65001}) x upstream replies without / with OPT (DO set, any of those options, extended rcode) through the handler alone and through random chains of 1..4 of {cache, ttl, ecs_handler(forward/preset), forward_edns0opt(codes)}, each chain queried 1..3 times (cache hits included); the scripted upstream records the query it is sent; (3) forked sub-queries: a copy of the query context whose OPT is then edited, and fallback with an EDNS0-forwarding plugin in the primary branch only in front of a failing upstream (the secondary upstream records its query); (4) 2..5 successive exchanges for one question (UDP/TCP/DoH) through chains of 1..4 of {forward_edns0opt(codes), ecs_handler, ttl} around one or two caches (lazy or not), every option with a payload of its own: reply and upstream query may only carry options of this very exchange that a plugin forwards explicitly, the upstream's client-subnet option only for a client that sent one (ecs_handler with forward / preset / send), the cache entries (read back after each exchange, and through a dump) never contain an OPT; single-cache chains are replayed on the model (Model.C15.transact); (5) one exchange through forwarding plugins inside both branches of fallback, below dual_selector and below a lazy cache holding an expired entry, every upstream call with option payloads and a marker record of its own, the reply packed only after every started sub-query has returned (gated: secondary before primary with always_standby, slow primary after the secondary): options in the reply only from the upstream answer the reply was made from, forwarded by a plugin on its path, not more often than there are such plugins; replayed on Model.C15.fork when nothing precedes the forking plugin; non-trivial = client or upstream OPT present")
 }
 
 // fork15: (a) a copied context's query OPT is independent of the original's; (b) fallback{primary: [forwarding plugin,
